@@ -20,6 +20,7 @@ claimed = {
  "C08": ("symx: five write operations with uninterpreted update functions; armed writes from node functions/handlers; get()/is_stable()/reader-argument validity queries", "5/C08"),
  "C12": ("symx (mostly structural): drop-counting guards and WeakIncr probes vs. reachability from live handles, all drop orders incl. the state, both profiles", "5/C12"),
  "C19": ("symx (configuration forked): height limit N, chain/bind heights around N, grow/shrink reconfiguration, cycles, foreign-state nodes, nested stabilise; both profiles", "5/C19"),
+ "C20": ("symx: WeakIncr::strong_count oracle for sharing vs. re-invocation, calls from top level and from bind closures, recursive variant", "5/C20"),
  "C13": ("symx: panic injected at a symbolic user-function invocation, caught; all-or-refuse check on every observer, refusal of further stabilise, drop under catch_unwind; both profiles", "5/C13"),
  "C09": ("symx: expected notification per subscription derived from the reference, solver-decided change", "5/C09"),
  "C10": ("symx (structural): lifecycle model vs. returned Results over all op vectors", "5/C10"),
